@@ -111,6 +111,10 @@ func (a *kAggregate) Next(ctx context.Context) ([]model.StepVector, error) {
 
 	result := a.vectorPool.GetVectorBatch()
 	for i, vector := range in {
+		// Same parameter validation as in the Prometheus engine.
+		if !convertibleToInt64(a.params[i]) {
+			return nil, errors.Newf("Scalar value %v overflows int64", a.params[i])
+		}
 		a.aggregate(vector.T, &result, int(a.params[i]), vector.SampleIDs, vector.Samples)
 		a.next.GetPool().PutStepVector(vector)
 	}
@@ -162,6 +166,12 @@ func (a *kAggregate) init(ctx context.Context) error {
 }
 
 func (a *kAggregate) aggregate(t int64, result *[]model.StepVector, k int, SampleIDs []uint64, samples []float64) {
+	// A k smaller than one selects nothing.
+	if k < 1 {
+		*result = append(*result, a.vectorPool.GetStepVector(t))
+		return
+	}
+
 	for i, sId := range SampleIDs {
 		h := a.inputToHeap[sId]
 		if h.Len() < k || h.compare(h.entries[0].total, samples[i]) || math.IsNaN(h.entries[0].total) {
@@ -194,6 +204,16 @@ func (a *kAggregate) aggregate(t int64, result *[]model.StepVector, k int, Sampl
 		h.entries = h.entries[:0]
 	}
 }
+
+// convertibleToInt64 returns true if v does not over-/underflow an int64.
+func convertibleToInt64(v float64) bool {
+	return v <= maxInt64 && v >= minInt64
+}
+
+const (
+	maxInt64 = 9223372036854774784.0
+	minInt64 = -9223372036854775808.0
+)
 
 type entry struct {
 	sId   uint64
